@@ -19,6 +19,7 @@ import (
 
 	"github.com/DataDog/datadog-traceroute/common"
 	"github.com/DataDog/datadog-traceroute/icmp"
+	rlog "github.com/DataDog/datadog-traceroute/log"
 	"github.com/DataDog/datadog-traceroute/packets"
 	"github.com/DataDog/datadog-traceroute/result"
 	"github.com/DataDog/datadog-traceroute/sack"
@@ -292,6 +293,10 @@ func runWire(t *testing.T, s *Scenario) (evs []wire.Event) {
 				cancel()
 			})
 			defer tm.Stop()
+		}
+		if boolExtra(s, "verbose") { // what -v / --log-level trace switch on
+			rlog.SetLogLevel(rlog.LevelTrace)
+			defer rlog.SetLogLevel(rlog.LevelInfo)
 		}
 		var run *result.TracerouteRun
 		var err error
